@@ -373,6 +373,12 @@ func cmdCheck(args []string) int {
 		tn := time.Now()
 		// 1. findings
 		byPkg := map[string][]int{}
+		assertLabels := map[string]bool{}
+		for _, f := range allFindings {
+			if f.Kind == "assert" {
+				assertLabels[f.Harness+"|"+f.Label] = true
+			}
+		}
 		for i, f := range allFindings {
 			exp := expectedOutcome(f)
 			if exp == "monitor" {
@@ -419,6 +425,11 @@ func cmdCheck(args []string) int {
 					}
 					if got == cases[j].Expect {
 						f.Replayed = "confirmed"
+						validated++
+					} else if strings.HasPrefix(got, "assert-fail:") && assertLabels[f.Harness+"|"+strings.TrimPrefix(got, "assert-fail:")] {
+						// natively the run stops at the first failing assertion; the engine goes on and
+						// reports later ones on the same path too. The earlier one is itself a reported finding.
+						f.Replayed = "confirmed (native run stops at the earlier failing assertion " + strings.TrimPrefix(got, "assert-fail:") + ")"
 						validated++
 					} else {
 						f.Replayed = "NOT confirmed: native outcome " + got
